@@ -151,6 +151,9 @@ func main() {
 			}
 		}
 	case "race":
+		for _, sp := range []bool{false, true} {
+			runCase(o, &Case{Race: &Race{K: 2, ACME: true, Driven: true, Spell: sp}})
+		}
 		for i := 0; i < *n; i++ {
 			rr := r.Fork()
 			rc := &Race{K: 2 + rr.Intn(15), SSH: rr.Chance(1, 4), Renewers: rr.Intn(4), Spell: rr.Chance(1, 2)}
